@@ -198,6 +198,10 @@ def run_split(bib, text: str, how: str = "split"):
                 lib = bib.splitter.Splitter(text).split()
             elif how == "default":
                 lib = bib.parse_string(text)
+            elif how == "parse0_after_default":
+                # the same text parsed with the default stack immediately before: an empty-stack parse is a function of the text
+                bib.parse_string(text)
+                lib = bib.parse_string(text, parse_stack=[])
             elif how == "default_shared":
                 # one default stack (list AND middleware objects) built once and handed to every call of the run
                 if "stack" not in _SHARED:
